@@ -244,6 +244,27 @@ def check(prog, rep, tier):
                 found='; '.join(probs[:3]), expected='request forwarded unchanged', key='send_update_message')
     else:
         rep.ok('R16.c', 'send_update_message', file=v.file, line=v.node.lineno, found='%d send call(s)' % len(sends))
+    # json_to_bin builds the bytes that send/bin_update later puts on the wire: its LOCAL_PREF default has the same
+    # guard (membership, so that an explicit 0 is kept)
+    jb = m.functions.get('json_to_bin')
+    if jb is not None:
+        sets5 = [n for n in ast.walk(jb.node) if isinstance(n, ast.Assign) and any(
+            isinstance(t, ast.Subscript) and src_of(t.value) == 'attr' and src_of(t.slice) == '5' for t in n.targets)]
+        probs = []
+        for n in sets5:
+            if src_of(n.value) != '100':
+                probs.append('default LOCAL_PREF is %s' % src_of(n.value))
+            cs = common.conds_at(jb.node, n)
+            if not common.holds(cs, lambda e: isinstance(e, ast.Compare) and len(e.ops) == 1 and
+                                isinstance(e.ops[0], ast.NotIn) and src_of(e.left) == '5'
+                                and src_of(e.comparators[0]) == 'attr'):
+                probs.append('attr[5] = 100 is not guarded by `5 not in attr` (conditions: %s): an explicit LOCAL_PREF '
+                             'that is falsy (0) is overwritten' % [src_of(t) for t, v_ in cs])
+        if probs:
+            rep.bad('R16.c', 'json_to_bin:local-pref', file=jb.file, line=jb.node.lineno, func=jb.qualname,
+                    found='; '.join(probs[:2]), expected='same guard as send_update_message', key='json_to_bin:local-pref')
+        elif sets5:
+            rep.ok('R16.c', 'json_to_bin:local-pref', file=jb.file, line=sets5[0].lineno)
     # BGP.send_update: True only when the message Update.construct returned was written; when
     # construction fails nothing is written and the result is falsy
     from ..values import Const, Opaque
@@ -280,6 +301,33 @@ def check(prog, rep, tier):
                 key='BGP.send_update')
     else:
         rep.ok('R16.c', 'BGP.send_update', file=su.file, line=su.node.lineno, found='%d path(s)' % npaths)
+    # BGP.send_route_refresh: whatever capability branch is taken, the message written carries the afi / res / safi
+    # that were requested
+    from .. import bytelen as BL
+    from ..values import BytesV
+    sr = bgp.find_method('send_route_refresh')
+    probs = []
+    nwr = 0
+    for poid, st in m.setup('Established', 'live'):
+        for k, v, s2 in m.run_method(st, poid, 'send_route_refresh', [Opaque('afi'), Opaque('safi'), Opaque('res')]):
+            for a in s2.actions:
+                if a.kind == 'call' and a.meth == 'write' and a.target.startswith('transport') and a.args:
+                    nwr += 1
+                    msg = a.args[0]
+                    fl = [p_ for p_ in BL.fields(BL.flatten(msg)) if p_[0] == 'field'] if isinstance(msg, BytesV) else []
+                    got = [p_[2].desc() for p_ in fl[-3:]]
+                    if got != ['afi', 'res', 'safi']:
+                        guards = ' & '.join(('%s' if b else 'not %s') % t for t, b, l, q in s2.path[-3:])
+                        probs.append('on the path %s the ROUTE-REFRESH written carries (afi, res, safi) = %s instead of '
+                                     'the requested values' % (guards or '(unconditional)', got))
+    if probs:
+        rep.bad('R16.c', 'BGP.send_route_refresh', file=sr.file, line=sr.node.lineno, func=sr.qualname,
+                found=sorted(set(probs))[0], expected='the requested afi, res, safi on every writing path',
+                key='BGP.send_route_refresh')
+    elif nwr:
+        rep.ok('R16.c', 'BGP.send_route_refresh', file=sr.file, line=sr.node.lineno, found='%d write(s)' % nwr)
+    else:
+        rep.undecided('R16.c', 'BGP.send_route_refresh', file=sr.file, line=sr.node.lineno, found='no writing path')
     # api_utils.send_* report success only from the protocol's result
     for name, meth in (('send_update', 'send_update'), ('send_bin_update', 'send_bin_update'),
                        ('send_route_refresh', 'send_route_refresh')):
